@@ -61,7 +61,7 @@ def rejudge(case):
 
 def run(tier, seed, procs):
     quick = tier == 'quick'
-    N, K = (4, 3) if quick else (6, 4)
+    N, K = (4, 3) if quick else (7, 4)
     tasks = [(MOD, n, lay, K) for n in range(0, N + 1) for lay in gen.LAYOUTS]
     cols = drive.pool_map(drive.shard_enum_story, tasks, procs)
     kw = dict(kinds=gen.STORY_KINDS, faults='some', rich=True, degenerate=True)
